@@ -50,6 +50,7 @@ FILES = [
     {"path": "exodus/mixed/mixed.exo"},
     {"path": "scrip/outCSne8/outCSne8.nc"},
     {"path": "exodus/outCSne8/outCSne8.g"},
+    {"path": "geos-cs/c12/test-c12.native.nc4"},
 ]
 CTORS = ["topology", "topology", "topology_lists", "open_grid_dict", "vertices", "vertices_list", "vertices_xyz", "ugrid_mem", "ugrid_mem", "open_grid_ds", "ugrid_file", "raw_ds"]
 
